@@ -385,6 +385,9 @@ func epReply(key int) epOp         { return epOp{kind: "reply", key: key} }
 func epRemove(key int) epOp        { return epOp{kind: "remove", key: key} }
 func epSleep(d time.Duration) epOp { return epOp{kind: "sleep", d: d} }
 func epGet(key int) epOp           { return epOp{kind: "get", key: key} }
+func epSave(key int) epOp          { return epOp{kind: "save", key: key} }
+func epRemoveSaved(key int) epOp   { return epOp{kind: "removesaved", key: key} }
+func epCloseCore(gen int) epOp     { return epOp{kind: "closecore", gen: gen} }
 
 var (
 	epInvalidate = epOp{kind: "invalidate"}
@@ -406,9 +409,10 @@ type epSpec struct {
 }
 
 type epThread struct {
-	name string
-	mine map[int]*UdpEndpoint
-	n    int
+	name  string
+	mine  map[int]*UdpEndpoint
+	saved map[int]*UdpEndpoint // endpoints a packet handler still holds although it may have left the pool
+	n     int
 }
 
 type epObs struct {
@@ -486,12 +490,17 @@ func newEpObs(sc *epSpec) *epObs {
 	}
 	bpf0 := newBpf()
 	for g := 0; g < 2; g++ {
-		core := &controlPlaneCore{}
+		// the shape newControlPlaneCore builds, minus its interface manager (netlink subscription + goroutine):
+		// a close context, bpf objects inherited from / handed to the other generation (not owned), and the
+		// shared conn-state tracker acquired eagerly from the registry keyed by the bpf objects
+		closed, toClose := context.WithCancel(context.Background())
+		core := &controlPlaneCore{log: gopt.Log, closed: closed, close: toClose, domainRouting: newDomainRoutingTracker()}
+		b := bpf0
 		if g == 1 && sc.distinctBpf {
-			core.bpf.Store(newBpf())
-		} else {
-			core.bpf.Store(bpf0)
+			b = newBpf()
 		}
+		core.bpf.Store(b)
+		core.udpConnStateTracker.Store(acquireSharedUdpConnStateTracker(b))
 		o.gens = append(o.gens, &epGen{
 			owner: &epOwner{name: fmt.Sprintf("gen%d", g), core: core, o: o},
 			drain: newControlPlaneDrainTracker(),
@@ -668,6 +677,36 @@ func (o *epObs) exec(th *epThread, op epOp) {
 			c.deadT, c.deadWhy = o.tick(), "it was removed from the pool"
 		}
 		o.note("%s:rm(%s)=%v", id, c.name(), err == nil)
+	case "save":
+		if ue, _ := o.pick(th, op.key); ue != nil {
+			if th.saved == nil {
+				th.saved = map[int]*UdpEndpoint{}
+			}
+			th.saved[op.key] = ue
+		}
+	case "removesaved":
+		// the error path of a packet handler: Remove(key, the endpoint it was using), which may be stale by now
+		ue := th.saved[op.key]
+		if ue == nil {
+			break
+		}
+		c, _ := ue.conn.(*epConn)
+		if c == nil {
+			break
+		}
+		if c.killT == 0 {
+			c.killT = o.tick()
+		}
+		err := o.pool.Remove(epKeys[op.key], ue)
+		if c.deadT == 0 {
+			c.deadT, c.deadWhy = o.tick(), "it was removed from the pool"
+		}
+		delete(th.mine, op.key)
+		o.note("%s:rmsaved(%s)=%v", id, c.name(), err == nil)
+	case "closecore":
+		// the old generation's core is closed (drain timed out) while endpoints it created may still be alive
+		err := o.gens[op.gen].owner.core.Close()
+		o.note("%s:closecore(g%d)=%v", id, op.gen, err == nil)
 	case "invalidate":
 		o.invalidate(id)
 	case "reset", "close":
@@ -993,6 +1032,15 @@ func VerifEndpointPoolScenarios() []*vsched.Scenario {
 			setup:   []epOp{epGoc(1, 0), epTrack(1)},
 			threads: [][]epOp{{epGoc(1, 0), epTrack(1)}, {epRemove(1)}},
 			after:   []epOp{epGet(1), epGoc(1, 0)}},
+		// a stale Remove (the handler's endpoint already left the pool and was replaced) must not evict the replacement
+		{name: "ep-stale-remove-seq",
+			setup:   []epOp{epGoc(1, 0), epSave(1), epReadErr(1), epGoc(1, 0), epRemoveSaved(1)},
+			threads: [][]epOp{{epGoc(1, 0), epWrite(1)}, {epGoc(1, 0)}},
+			after:   []epOp{epGet(1)}},
+		{name: "ep-stale-remove-race", writeChoices: 2,
+			setup:   []epOp{epGoc(1, 0)},
+			threads: [][]epOp{{epSave(1), epWrite(1), epRemoveSaved(1), epGoc(1, 0)}, {epGoc(1, 0)}},
+			after:   []epOp{epGet(1)}},
 		// (3) reload hand-over: adoption by the next generation racing with endpoint close; two endpoints share a tuple
 		{name: "ep-adopt-shared-tuple",
 			setup:   []epOp{epGoc(1, 0), epTrack(1), epGoc(2, 0), epTrack(2)},
@@ -1006,10 +1054,84 @@ func VerifEndpointPoolScenarios() []*vsched.Scenario {
 			setup:   []epOp{epGoc(1, 0), epTrack(1)},
 			threads: [][]epOp{{epGoc(1, 1)}, {epGoc(1, 1), epRemove(1)}},
 			after:   []epOp{epGoc(1, 0), epTrack(1), epGoc(1, 1)}},
+		// the old generation's core is closed while one of its endpoints, never adopted, still owns a tuple that an
+		// endpoint of the new generation owns too; the two then close in either order
+		{name: "ep-closed-gen-shared-tuple",
+			setup:   []epOp{epGoc(1, 0), epTrack(1), epGoc(2, 1), epTrack(2), epCloseCore(0)},
+			threads: [][]epOp{{epRemove(1)}, {epGoc(2, 1)}},
+			after:   []epOp{epRemove(2)}},
+		// ... and registers the tuple only after its generation was closed
+		{name: "ep-closed-gen-late-track",
+			setup:   []epOp{epGoc(1, 0), epCloseCore(0), epTrack(1), epGoc(2, 1), epTrack(2)},
+			threads: [][]epOp{{epRemove(2)}, {epGoc(1, 1)}},
+			after:   []epOp{epRemove(1)}},
 	}
 	var out []*vsched.Scenario
 	for _, sc := range specs {
 		out = append(out, epScenario(sc))
+	}
+	return out
+}
+
+// epGroup folds several scenarios into one exploration tree: the first (cost-free, always explored) decision of an
+// execution picks the member. One set of worker processes and one time share then serve all members, which is
+// what the quick tier needs (every member is small; 16 process start-ups per member would dominate).
+func epGroup(name string, members []*vsched.Scenario) *vsched.Scenario {
+	cur := 0
+	g := &vsched.Scenario{Name: name}
+	g.Body = func() {
+		cur = vsched.ChooseFree(len(members), "scenario")
+		members[cur].Body()
+	}
+	g.Check = func(r *vsched.Result) (string, any) {
+		sig, detail := members[cur].Check(r)
+		if sig != "" {
+			sig = members[cur].Name + ": " + sig
+		}
+		return sig, detail
+	}
+	g.Outcome = func(r *vsched.Result) string { return members[cur].Name + "|" + members[cur].Outcome(r) }
+	for _, m := range members {
+		if m.MaxSteps > g.MaxSteps {
+			g.MaxSteps = m.MaxSteps
+		}
+		if m.HorizonNs > g.HorizonNs {
+			g.HorizonNs = m.HorizonNs
+		}
+	}
+	return g
+}
+
+// VerifEndpointPoolQuickScenarios: the same scenarios packed for the quick tier. Members of a group share one
+// list of bounds, so they are grouped by the depth that completes quickly; the dial and janitor scenarios stay alone.
+func VerifEndpointPoolQuickScenarios() []*vsched.Scenario {
+	by := map[string]*vsched.Scenario{}
+	for _, sc := range VerifEndpointPoolScenarios() {
+		by[sc.Name] = sc
+	}
+	pick := func(names ...string) []*vsched.Scenario {
+		var out []*vsched.Scenario
+		for _, n := range names {
+			if by[n] == nil {
+				panic("C13 harness: no scenario " + n)
+			}
+			out = append(out, by[n])
+			delete(by, n)
+		}
+		return out
+	}
+	out := []*vsched.Scenario{
+		by["ep-3goc-dial"], by["ep-2goc-seq-dial"], by["ep-goc-vs-janitor"],
+	}
+	pick("ep-3goc-dial", "ep-2goc-seq-dial", "ep-goc-vs-janitor")
+	out = append(out,
+		epGroup("epq-depth2", pick("ep-goc-vs-readerr", "ep-goc-vs-invalidate-used", "ep-goc-vs-reset", "ep-goc-vs-close",
+			"ep-goc-vs-remove", "ep-stale-remove-seq", "ep-adopt-shared-tuple", "ep-adopt-vs-readerr", "ep-adopt-distinct-tracker",
+			"ep-closed-gen-shared-tuple", "ep-closed-gen-late-track")),
+		epGroup("epq-depth1", pick("ep-goc-vs-writeerr", "ep-goc-vs-invalidate-fresh", "ep-create-vs-invalidate", "ep-stale-remove-race")),
+	)
+	if len(by) != 0 {
+		panic(fmt.Sprintf("C13 harness: %d scenario(s) not placed in a quick group", len(by)))
 	}
 	return out
 }
